@@ -191,7 +191,8 @@ class GetDefaults:
           raises=["ConfigParseError", "OSError"])
 class LoadConfig:
     """Existing file: parse_config_file. Missing file: [tool.thailint] of the pyproject.toml next to it (normalised like
-    every other carrier); unreadable/malformed/empty pyproject falls back to the defaults."""
+    every other carrier); no pyproject.toml or an empty table gives the defaults, an unreadable or malformed one is a
+    ConfigParseError like any other unparsable carrier."""
 
     def requires(config_path):
         return isinstance(yaml_doc(file_of(config_path)), dict) or yaml_doc(file_of(config_path)) is None
@@ -202,15 +203,14 @@ class LoadConfig:
                        or result == {"rules": {}, "ignore": []})
 
     def ensures_malformed_pyproject_is_an_error(config_path, result):
-        # property text: "an unparsable file ends the run with exit code 2 instead of silently falling back to defaults"
-        # (expected to fail: known finding C05-malformed-pyproject-falls-back-to-defaults)
+        # property text: "an unparsable file ends the run with exit code 2 instead of silently falling back to defaults":
+        # a normal return without a config file means there is no pyproject.toml, or it was readable and well-formed
         return implies(not fs_exists(config_path),
-                       fs_open_fails(pyproject_of(config_path)) or not toml_invalid(file_of(pyproject_of(config_path))))
+                       not fs_exists(pyproject_of(config_path))
+                       or (not fs_open_fails(pyproject_of(config_path)) and not toml_invalid(file_of(pyproject_of(config_path)))))
 
-    def ensures_malformed_or_unreadable_pyproject_gives_defaults(config_path, result):
-        # finding-adjusted: an unreadable AND a malformed pyproject.toml both silently yield the built-in defaults
-        return implies(not fs_exists(config_path)
-                       and (fs_open_fails(pyproject_of(config_path)) or toml_invalid(file_of(pyproject_of(config_path)))),
+    def ensures_no_config_anywhere_gives_defaults(config_path, result):
+        return implies(not fs_exists(config_path) and not fs_exists(pyproject_of(config_path)),
                        result == {"rules": {}, "ignore": []})
 
 
